@@ -251,6 +251,14 @@ func (m Mapper) NewMutation(data *Info, column string, mutator ovsdb.Mutator, va
 		if err != nil {
 			return nil, err
 		}
+		// the keys are atoms of the key type, uuids in particular need
+		// their wire form
+		for i, key := range ovsSet.GoSet {
+			ovsSet.GoSet[i], err = ovsdb.NativeToOvsAtomic(columnSchema.TypeObj.Key.Type, key)
+			if err != nil {
+				return nil, err
+			}
+		}
 		ovsValue = ovsSet
 	} else {
 		ovsValue, err = ovsdb.NativeToOvs(columnSchema, value)
